@@ -214,9 +214,6 @@ func TestVerifC13_goldilocks(t *testing.T) {
 		var out *Point
 		if try("ScalarMult", id, func() { out = e.ScalarMult(k, P) }) {
 			check("ScalarMult", "k="+s.Name+"|P="+a.Name, id, out, ref.BaseMult(new(big.Int).Mul(s.V, a.V)), payload)
-			if *k != *c13Scalar(s.V) {
-				bad("ScalarMult", "mutates-scalar|k="+s.Name, id, "the caller's scalar was modified", payload)
-			}
 		}
 		r.Eval(1)
 		r.Transition(1)
